@@ -214,6 +214,16 @@ class Oracle:
             return len(pairs), (pairs[-1][0].start, pairs[-1][1].end)
         return 0, (first.start, last.end)
 
+    def grouping_any(self, n):
+        """(n_pairs, span) of ALL parenthesis pairs that enclose exactly the node, whoever owns them (`shared=None`)"""
+        fl = self.first_last(n)
+        if fl is None:
+            return None
+        pairs = self.enclosing_pairs(*fl)
+        if pairs:
+            return len(pairs), (pairs[-1][0].start, pairs[-1][1].end)
+        return 0, (fl[0].start, fl[1].end)
+
     def group_span(self, n):
         g = self.grouping(n)
         return None if g is None else g[1]
